@@ -566,7 +566,16 @@ func cronCase(c *Ctx, rng *rand.Rand) {
 	}
 	lastFired := map[string]int64{}
 	changedAt := map[string]int64{} // ns of the last schedule change of the key
+	flushTick := map[string]int64{} // ns of the first tick after the last change (0 = none yet)
+	firedAfter := map[string][]int64{}
+	capHit := map[string]bool{}
 	firedTotal := 0
+	noteChange := func(k string, at int64) {
+		changedAt[k] = at
+		flushTick[k] = 0
+		firedAfter[k] = nil
+		capHit[k] = false
+	}
 
 	for _, at := range times {
 		// events before the tick
@@ -602,7 +611,7 @@ func cronCase(c *Ctx, rng *rand.Rand) {
 				}
 				v := w.describe(nj, tz)
 				if v.specID != old.specID {
-					changedAt[k] = at
+					noteChange(k, at)
 				}
 				cur[k], curTZ[k] = v, tz
 				jcInf.Apply("update", nj)
@@ -611,14 +620,14 @@ func cronCase(c *Ctx, rng *rand.Rand) {
 				jcInf.Apply("delete", old.obj)
 				c.Emit(fmt.Sprintf("cron.delete %d", old.id), "ok")
 				cur[k] = nil
-				changedAt[k] = at
+				noteChange(k, at)
 				c.Count("cron.ev.delete")
 			case old == nil: // (re)create
 				name := strings.TrimPrefix(k, "ns/")
 				jc, tz := w.genJC(name, at/1e9)
 				v := w.describe(jc, tz)
 				cur[k], curTZ[k] = v, tz
-				changedAt[k] = at
+				noteChange(k, at)
 				jcInf.Apply("add", jc)
 				c.Emit(fmt.Sprintf("cron.add %d", v.id), "ok")
 				c.Count("cron.ev.add")
@@ -638,6 +647,11 @@ func cronCase(c *Ctx, rng *rand.Rand) {
 			c.Count("cron.tick.fired")
 		}
 		firedTotal += len(h.got)
+		for k := range changedAt {
+			if flushTick[k] == 0 {
+				flushTick[k] = at
+			}
+		}
 		perKey := map[string]int64{}
 		for _, f := range h.got {
 			perKey[f.key]++
@@ -652,7 +666,41 @@ func cronCase(c *Ctx, rng *rand.Rand) {
 			if perKey[f.key] > maxMissed && maxMissed >= 0 {
 				c.Violate("C01", "cap", "%s fired %d times in one tick, cap %d", f.key, perKey[f.key], maxMissed)
 			}
+			if perKey[f.key] >= maxMissed {
+				capHit[f.key] = true
+			}
 			v := cur[f.key]
+			// --- C03: after a change the key follows its current API state only ---
+			if ca, changed := changedAt[f.key]; changed && out != "panic" {
+				switch {
+				case v == nil:
+					c.Violate("C03", "deleted-stops", "%s fired %d after it was deleted at %d", f.key, f.ts, ca)
+				case !v.enabled:
+					c.Violate("C03", "disabled-stops", "%s fired %d although its schedule is disabled/absent since %d", f.key, f.ts, ca)
+				case v.parseErr || v.brokenLib:
+				default:
+					firedAfter[f.key] = append(firedAfter[f.key], f.ts)
+					if f.ts*1e9 <= ca {
+						c.Violate("C03", "no-backdating", "%s fired %d which is not after the change at %d ns", f.key, f.ts, ca)
+					}
+					on := false
+					for _, l := range v.lists {
+						j := sort.Search(len(l), func(x int) bool { return l[x] >= f.ts })
+						if j < len(l) && l[j] == f.ts {
+							on = true
+						}
+					}
+					if !on {
+						c.Violate("C03", "new-schedule-only", "%s fired %d which matches none of its current expressions", f.key, f.ts)
+					}
+					if v.naf != nil && f.ts > *v.naf {
+						c.Violate("C03", "window-after-change", "%s fired %d after notAfter %d", f.key, f.ts, *v.naf)
+					}
+					if v.nbf != nil && f.ts < *v.nbf {
+						c.Violate("C03", "window-after-change", "%s fired %d before notBefore %d", f.key, f.ts, *v.nbf)
+					}
+				}
+			}
 			if v == nil || v.brokenLib {
 				continue
 			}
@@ -686,6 +734,40 @@ func cronCase(c *Ctx, rng *rand.Rand) {
 				if iv != nil && iv.lu != nil && f.ts <= *iv.lu {
 					c.Violate("C04", "last-updated-bound", "%s fired %d <= lastUpdated %d", f.key, f.ts, *iv.lu)
 				}
+			}
+		}
+	}
+	// C03 liveness: a key created / enabled / re-scheduled at run time fires the first match
+	// after the tick that followed the change (when the run lasted long enough and cap >= 1).
+	if initErr == nil && len(times) > 0 && maxMissed >= 1 {
+		last := times[len(times)-1] / 1e9
+		for k, ft := range flushTick {
+			v := cur[k]
+			if ft == 0 || v == nil || !v.enabled || v.parseErr || v.brokenLib {
+				continue
+			}
+			var first int64
+			for _, l := range v.lists {
+				for _, m := range l {
+					if m > ft/1e9 && (v.nbf == nil || m >= *v.nbf) {
+						if first == 0 || m < first {
+							first = m
+						}
+						break
+					}
+				}
+			}
+			if first == 0 || first > last || (v.naf != nil && first > *v.naf) {
+				continue
+			}
+			found := false
+			for _, t := range firedAfter[k] {
+				if t == first {
+					found = true
+				}
+			}
+			if !found {
+				c.Violate("C03", "change-takes-effect", "%s (changed at %d ns, next tick %d ns) never fired its first due match %d although ticks ran until %d", k, changedAt[k], ft, first, last)
 			}
 		}
 	}
